@@ -116,6 +116,20 @@ def result_projection(log):
 
 
 def judge(args):
+    """Guarded replay of one case: a library operation that never returns is a finding, not a hung check."""
+    from .driver import Hang, guarded  # noqa: PLC0415
+    try:
+        return guarded(30.0)(_judge)(args)
+    except Hang:
+        case, props, _ = args
+        tool = case["cfg"]["tool"]
+        prop = sorted(props)[0]
+        return {"viol": [(prop, f"{prop}/{tool}/operation-never-returns",
+                          {"engine": "toolmachine", "cfg": case["cfg"], "nnext": case["nnext"], "fault": tm.fault_plan(case),
+                           "observed": "30 s of CPU time without suspending or returning"})], "mach": [], "n": {}}
+
+
+def _judge(args):
     """Replay one case; return {"viol": [(prop, signature, detail)], "mach": [...], "n": counters}."""
     case, props, opts = args
     L = tm.load_lib()
